@@ -197,6 +197,7 @@ theorem step_supply (ord : List Group → List Group) (w : World) (st : Step) (d
       w.s.bank.supply d + stepCredited ord w st d := by
   cases st with
   | setVals v => simp [stepWorld, stepLocked, stepBurned, stepCredited]
+  | restart => simp [stepWorld, stepLocked, stepBurned, stepCredited]
   | msg m =>
     cases m with
     | claim cm =>
